@@ -204,7 +204,7 @@ def ocaml_build(name, extract_v, model_name, driver_ml, extra_srcs=(), zconv=Tru
         rc, out2 = sh(["ocamlfind", "ocamlopt", "-package", "zarith", "-linkpkg", "-w", "-a"] + srcs + ["-o", name], cwd=d, timeout=900)
         return rc == 0, exe, out + out2
 
-def go_build(cmd, out_name=None, tags="", modfile=None, race=False):
+def go_build(cmd, out_name=None, tags="", modfile=None, race=False, cover=None):
     """Build harness/cmd/<cmd> against the current /repo working tree."""
     exe = os.path.join(BUILD, "bin", out_name or cmd)
     os.makedirs(os.path.dirname(exe), exist_ok=True)
@@ -215,6 +215,8 @@ def go_build(cmd, out_name=None, tags="", modfile=None, race=False):
         args += ["-race"]
     if modfile:
         args += ["-modfile", modfile]
+    if cover:
+        args += ["-cover", "-covermode=set", "-coverpkg=" + cover + ",./cmd/" + cmd]
     args += ["-o", exe, "./cmd/" + cmd]
     env = dict(GOENV)
     if race:
